@@ -1,3 +1,184 @@
 import ScryerModel.Proofs.Index
+import ScryerModel.Proofs.IndexSpec
+import ScryerModel.Proofs.IndexWalk
+/-!
+# C06 — Clause selection returns exactly the clauses whose heads unify
+
+Model (`Model/Index.lean`): `build ext cs` is `compile_predicate` (`split_predicate`,
+`compile_pred_subseq`, `CodeOffsets::index_term`, `compute_indices`), `addBack`/`addFront`/`remove`
+are `assertz`/`asserta`/`retract` on a dynamic predicate (`append_/prepend_compiled_clause`,
+`merge_clause_index`, `retract_dynamic_clause`), `select idx call` is the list of clause identifiers
+that `switch_on_term` / `switch_on_constant` / `switch_on_structure` hand to head unification, in
+trial order. `compatHead h call`: the head `h` could unify with `call` as far as the kinds of the
+arguments go (atoms by name; integers and rationals by VALUE whatever their representation:
+fixnum cell or arena object; floats by bits; lists; structures by name/arity; variables with
+everything) — a necessary condition for head unification, so no clause that unifies is outside it.
+
+`CallWF call`: a fixnum cell of the call holds a 56-bit value (true of every cell the machine
+builds). Heads are arbitrary: any mixture of atoms, fixnums, bignums, rationals (also with
+denominator 1 / values that fit a fixnum), floats, lists, structures, variables; any arity; any
+number of clauses.
+
+Only statements live here; lemmas are in `Proofs/Index*.lean`.
+-/
 namespace Scryer.Index
+
+/-! ## static predicates (and the initial clauses of dynamic ones) -/
+
+/-- **order, nothing added, no duplicates** — consulted code: the clauses the index hands over
+are a sublist of the clauses in textual order `0, 1, …, n-1`. -/
+theorem C06_static_sublist (ext : Bool) (cs : List Head) (call : Call) :
+    (select (build ext cs) call).Sublist (List.range cs.length) := by
+  have := (inv_build ext cs).select_sublist call
+  rwa [live_build] at this
+
+/-- **nothing dropped** — consulted code: every clause whose head could unify with the call is
+handed over, whatever the type of the argument the predicate is indexed on. -/
+theorem C06_static_complete (ext : Bool) (cs : List Head) (call : Call) (wf : CallWF call)
+    (i : Nat) (hi : i < cs.length) (hc : compatHead cs[i] call = true) :
+    i ∈ select (build ext cs) call := by
+  apply (inv_build ext cs).select_complete call wf
+  · rw [live_build]; exact List.mem_range.2 hi
+  · rwa [hd_build ext cs i hi]
+
+/-- **exactly the unifiable clauses, in textual order** — consulted code: index selection
+followed by head unification = head unification over all clauses in textual order. -/
+theorem C06_static_exact (ext : Bool) (cs : List Head) (call : Call) (wf : CallWF call) :
+    (select (build ext cs) call).filter (fun i => compatHead (cs.getD i []) call)
+      = (List.range cs.length).filter (fun i => compatHead (cs.getD i []) call) := by
+  have h := (inv_build ext cs).select_exact call wf
+  rw [live_build] at h
+  have hs := C06_static_sublist ext cs call
+  have e : ∀ l : List Nat, l.Sublist (List.range cs.length) →
+      l.filter (fun id => compatHead ((build ext cs).hd id) call)
+        = l.filter (fun i => compatHead (cs.getD i []) call) := by
+    intro l hl
+    apply List.filter_congr
+    intro i hi
+    have hlt : i < cs.length := List.mem_range.1 (hl.subset hi)
+    rw [hd_build ext cs i hlt]
+    simp [List.getD, hlt]
+  rw [← e _ hs, ← e _ (List.Sublist.refl _)]
+  exact h
+
+/-! ## dynamic predicates: any history of assertz / asserta / retract -/
+
+/-- the reference database of a dynamic predicate consulted with clauses `cs`. -/
+def refStart (cs : List Head) : RefDb := { clauses := enumFrom' 0 cs, next := cs.length }
+
+/-- a dynamic predicate consulted with clauses `cs` and then updated by `ops`. -/
+def dynIndex (cs : List Head) (ops : List Op) : Index := ops.foldl Op.apply (build true cs)
+
+/-- the same history applied to the reference database (no index; ISO 8.9 semantics). -/
+def dynRef (cs : List Head) (ops : List Op) : RefDb := ops.foldl RefDb.apply (refStart cs)
+
+theorem tracks_build (cs : List Head) : Tracks (build true cs) (refStart cs) := by
+  refine ⟨rfl, ?_⟩
+  show (build true cs).liveClauses = enumFrom' 0 cs
+  unfold Index.liveClauses
+  rw [live_build]
+  have : ∀ (n : Nat) (l : List Head) (f : Nat → Head), (∀ i, (h : i < l.length) → f (n + i) = l[i]) →
+      (List.range' n l.length).map (fun id => (id, f id)) = enumFrom' n l := by
+    intro n l
+    induction l generalizing n with
+    | nil => intros; rfl
+    | cons x r ih =>
+      intro f hf
+      simp only [List.length_cons, List.range'_succ, List.map_cons, enumFrom']
+      congr 1
+      · have := hf 0 (by simp); simpa using congrArg (fun y => (n, y)) this
+      · apply ih (n + 1) f
+        intro i hi
+        have := hf (i + 1) (by simpa using hi)
+        simpa [Nat.add_assoc, Nat.add_comm 1 i] using this
+  rw [List.range_eq_range']
+  exact this 0 cs _ (fun i hi => by simpa using hd_build true cs i hi)
+
+/-- the invariant holds after every history. -/
+theorem inv_dyn (cs : List Head) (ops : List Op) : Inv (dynIndex cs ops) :=
+  inv_foldl ops _ (inv_build true cs)
+
+/-- **exactly the unifiable live clauses, in database order** — dynamic code: after ANY history
+of `assertz`, `asserta`, `retract` on a predicate consulted with ANY clauses, index selection
+followed by head unification yields exactly the clauses of the reference database (assertz at the
+end, asserta at the front, retracted ones gone) whose head could unify, in that order, each once. -/
+theorem C06_dynamic_exact (cs : List Head) (ops : List Op) (call : Call) (wf : CallWF call) :
+    ((select (dynIndex cs ops) call).filter
+        (fun id => compatHead ((dynIndex cs ops).hd id) call)).map
+        (fun id => (id, (dynIndex cs ops).hd id))
+      = (dynRef cs ops).matching call :=
+  (tracks_foldl ops _ _ (inv_build true cs) (tracks_build cs)).answers (inv_dyn cs ops) call wf
+
+/-- **order, nothing added, no duplicates** — dynamic code: what the index hands over is a
+sublist of the live clauses in database order (retracted clauses never appear), … -/
+theorem C06_dynamic_sublist (cs : List Head) (ops : List Op) (call : Call) :
+    (select (dynIndex cs ops) call).Sublist (dynIndex cs ops).live :=
+  (inv_dyn cs ops).select_sublist call
+
+/-- … and that list has no duplicates. -/
+theorem C06_dynamic_nodup (cs : List Head) (ops : List Op) (call : Call) :
+    (select (dynIndex cs ops) call).Nodup :=
+  List.Pairwise.sublist (C06_dynamic_sublist cs ops call) (inv_dyn cs ops).live_nodup
+
+/-- **nothing dropped** — dynamic code: every live clause whose head could unify is handed over. -/
+theorem C06_dynamic_complete (cs : List Head) (ops : List Op) (call : Call) (wf : CallWF call)
+    (id : Nat) (hl : id ∈ (dynIndex cs ops).live)
+    (hc : compatHead ((dynIndex cs ops).hd id) call = true) :
+    id ∈ select (dynIndex cs ops) call :=
+  (inv_dyn cs ops).select_complete call wf id hl hc
+
+/-- the live clauses of the indexed predicate ARE the reference database (identifiers, heads,
+order), so the two theorems above speak about the right clause list. -/
+theorem C06_dynamic_tracks (cs : List Head) (ops : List Op) :
+    (dynIndex cs ops).liveClauses = (dynRef cs ops).clauses :=
+  (tracks_foldl ops _ _ (inv_build true cs) (tracks_build cs)).clauses
+
+/-! ## walking a third-level line of a dynamic predicate (`DynamicIndexedChoice`) -/
+
+/-- with the repaired `Machine::retry` (finding C06-1) backtracking through a third-level line
+that still lists retracted clauses runs every living entry exactly once, in order. -/
+theorem C06_walk_exact (alive : Nat → Bool) (line : List Nat) (fuel : Nat) (h : line.length ≤ fuel) :
+    walk true alive line fuel = line.filter alive :=
+  walk_fixed alive line fuel h
+
+/-- **witness of finding C06-1**: `Machine::retry` as pinned (`biip += offset`) runs clause 1 twice
+on the line `[3, 0†, 1, 2]` (clause 0 retracted) — the observed `findall(I, q(a,I), L)`,
+`L = [3,1,1,2]`. -/
+theorem C06_walk_pinned_duplicates :
+    walk false (fun c => c != 0) [3, 0, 1, 2] 10 = [3, 1, 1, 2] ∧
+    walk true (fun c => c != 0) [3, 0, 1, 2] 10 = [3, 1, 2] := by decide
+
+/-! ## sensitivity to the keying of arena numbers (defect repaired by /repo 30079f6) -/
+
+/-- **witness**: with the routing before the repair (`selectOld`: an arena integer of the call is
+looked up in the constant table by ADDRESS) a clause with the same bignum value is dropped; the
+current routing (`select`) hands it over. -/
+theorem C06_old_routing_drops_bignum :
+    let cs : List Head := [[.const (.big 1 (10^20)), .var], [.const (.atom "a"), .var]]
+    let call : Call := [.arenaNum 2 (10^20) 1, .var]
+    compatHead cs[0] call = true ∧ selectOld (build false cs) call = [] ∧
+      select (build false cs) call = [0, 1] := by decide
+
+/-! ## non-vacuity: the hypotheses are satisfiable and the index really discriminates -/
+
+/-- a call with a fixnum, a bignum (arena) and a variable argument is well formed. -/
+example : CallWF [.fix 3, .arenaNum 7 (10^20) 1, .var] := by
+  intro a ha
+  simp at ha
+  rcases ha with rfl | rfl | rfl <;> simp [CallArg.WF, fitsFixnum, FIX_MIN, FIX_MAX]
+
+/-- the index skips clauses (it is not the trivial "try everything" selection): five clauses,
+call `p(a)`: only clauses 0, 2 (variable) and 4 are tried. -/
+example : select (build false [[.const (.atom "a")], [.const (.fix 1)], [.var], [.list],
+    [.const (.atom "a")]]) [.atom "a"] = [0, 2, 4] := by decide
+
+/-- the history of finding C06-2 in the model: `assertz(p(a)), asserta(p(f(_))), assertz(p(f(_)))`,
+call `p(f(_))`: clauses 1 and 2, in that order (the pinned implementation answers `[2]`). -/
+example : select (dynIndex [] [.assertz [.const (.atom "a")], .asserta [.struct "f" 1],
+    .assertz [.struct "f" 1]]) [.struct "f" 1] = [1, 2] := by decide
+
+/-- a bignum clause whose value fits a fixnum is found by a fixnum call (alternative key). -/
+example : select (build false [[.const (.big 9 5)], [.const (.atom "b")], [.const (.fix 6)]])
+    [.fix 5] = [0] := by decide
+
 end Scryer.Index
